@@ -381,6 +381,79 @@ def ml_part(chk, tier):
                     chk.nontrivial_case(json.dumps([r["scn"]["u"], r["scn"]["o"], r["scn"]["inp"], name]))
     finally:
         sc.close()
+    ml_inverted_part(chk, tier, res)
+
+
+def ml_inverted_part(chk, tier, res):
+    """Multi-line search, inverted (-U -v with a pattern that matches across lines): the lines standard mode prints are the
+    lines no match touches (GrepModelML); --count says how many they are, --files-with-matches lists the file iff there
+    are any, --quiet and every other mode give the same exit status, JSON reports the same lines."""
+    recs = [r for r in res.emits() if r["scn"]["cfg"]["inv"] and not r["scn"]["cfg"]["pass"] and r["scn"]["cfg"]["A"] == 0
+            and r["scn"]["cfg"]["B"] == 0 and not r["scn"]["o"]["word"] and not r["scn"]["o"]["line"] and not r["scn"]["o"]["crlf"]
+            and r["scn"]["inp"]]
+    seen, uniq = set(), []
+    for r in recs:
+        key = json.dumps([r["scn"]["u"], r["scn"]["o"], r["scn"]["inp"]], sort_keys=True)
+        inp = rr.sym_bytes(r["scn"]["inp"])
+        # (the pattern must be one rg searches in multi-line mode: some match holds a line feed)
+        if key in seen or not any(b"\n" in inp[a:b] for a, b in r["ms"]):
+            continue
+        seen.add(key)
+        uniq.append(r)
+    if tier == "quick":
+        uniq = uniq[vlib.seed() % 2::2]
+    sc = rgrun.Scratch("c10mlv")
+    try:
+        jobs, meta = [], []
+        for k, r in enumerate(uniq):
+            f = sc.write("d%d/f%d" % (k % 50, k), rr.sym_bytes(r["scn"]["inp"]))
+            args = ["--no-config", "--color", "never", "-j1", "-U", "-v"] + (["--multiline-dotall"] if r["scn"]["o"]["dotall"] else [])
+            for name, fl in (("std", ["-n", "--no-heading", "-I"]), ("count", ["-c", "-I"]), ("lwith", ["-l"]), ("lwithout", ["--files-without-match"]),
+                             ("quiet", ["-q"]), ("json", ["--json"])):
+                jobs.append({"args": args + fl + ["-e", rr.render(r["scn"]["u"]), f]})
+                meta.append((k, name, f))
+        outs = rgrun.run_many(jobs)
+        chk.evaluations += len(jobs)
+        for (k, name, f), j, (rc, so, se) in zip(meta, jobs, outs):
+            r = uniq[k]
+            inp = rr.sym_bytes(r["scn"]["inp"])
+            want = 0
+            for e in r["ref"]:
+                if e["k"] == "match":
+                    piece = inp[e["off"]:e["off"] + e["len"]]
+                    want += piece.count(b"\n") + (0 if piece.endswith(b"\n") or not piece else 1)
+            why = None
+            if rc not in (0, 1):
+                why = "rg failed rc=%d: %s" % (rc, se[:200])
+            elif (rc == 0) != (want > 0) and name != "lwithout":
+                why = {"exit_status": rc, "lines_no_match_touches": want}
+            elif name == "std":
+                got = len([x for x in so.split(b"\n") if x])
+                if got != want:
+                    why = {"lines_printed": got, "expected": want}
+            elif name == "count":
+                got = int(so.strip() or b"0") if (so.strip() or b"0").isdigit() else -1
+                if got != want:
+                    why = {"count": got, "expected": want}
+            elif name in ("lwith", "lwithout"):
+                listed = bool(so.strip())
+                if listed != ((want > 0) == (name == "lwith")):
+                    why = {name: listed, "lines_no_match_touches": want}
+            elif name == "json":
+                msgs = [m for m in rgrun.json_matches(so) if m.get("type") == "match"]
+                got = sum((m["data"]["lines"].get("text") or "").count("\n") or 1 for m in msgs)
+                if got != want:
+                    why = {"json_lines": got, "expected": want}
+            if why:
+                chk.violation({"mode": "mlv_" + name, "pattern": rr.render(r["scn"]["u"]), "opts": sorted(x for x, v in r["scn"]["o"].items() if v),
+                               "summary_mode_counts_zero": isinstance(why, dict) and name in ("count", "lwith", "lwithout", "quiet") and want > 0},
+                              {"why": why, "args": j["args"][:-1], "input": r["scn"]["inp"], "stdout": so[:200].decode("latin1")})
+            else:
+                chk.validated += 1
+                if want >= 1 and r["ms"]:
+                    chk.nontrivial_case(json.dumps(["mlv", r["scn"]["u"], r["scn"]["o"], r["scn"]["inp"], name]))
+    finally:
+        sc.close()
 
 
 def replay(path):
